@@ -168,8 +168,12 @@ func truncate(s string, n int) string {
 func (r *Run) writeEvidence(prop string, keys []string, reports []*funcReport, results []*Result, discharged, nviol, nknown, covers int, tGen, tSolve, cpu float64, bySolver map[string]int, slowest []*Result, engineErr bool) {
 	var samples []interface{}
 	kinds := map[string]int{}
+	confirmed := 0
 	for i, res := range results {
 		kinds[res.O.Kind]++
+		if res.OK() && len(res.Agreed) >= 2 {
+			confirmed++
+		}
 		if i%max(1, len(results)/12) == 0 && len(samples) < 14 {
 			samples = append(samples, map[string]interface{}{
 				"obligation": res.O.Name, "kind": res.O.Kind, "position": res.O.Pos.String(), "clause": res.O.Note,
@@ -213,6 +217,7 @@ func (r *Run) writeEvidence(prop string, keys []string, reports []*funcReport, r
 			"obligations":            len(results),
 			"discharged":             discharged,
 			"vacuity_guards":         covers,
+			"confirmed_by_second_solver": confirmed,
 			"known_findings":         nknown,
 			"not_discharged":         len(results) - discharged,
 			"checker_cmd":            strings.Join(os.Args, " "),
